@@ -233,6 +233,23 @@ def _run_check(prop, tier, seed, spec, args, env, t0):
             f'{err or out.get("harness_error")}')
       rc = 2
       continue
+    if not out['reproduced'] and v.get('orig_case') is not None:
+      # The minimised case can be over-fitted to the heap layout of the lane it
+      # was shrunk in (address-recycling bugs).  Fall back to the case as it was
+      # generated; if THAT fails in a fresh process it is reported unminimised.
+      out2, err2 = env.call({'mode': 'replay', 'machine': spec['machine'],
+                             'case': v['orig_case'], 'fp': v['fp'],
+                             'hard_timeout_s': 300}, hs, 400)
+      if not err2 and out2 and out2.get('reproduced'):
+        doc['case'] = v['orig_case']
+        doc['msg'] = v.get('orig_msg', v['msg'])
+        doc['min_ops'] = v['orig_ops']
+        doc['note'] = ('reported unminimised: the minimised form did not '
+                       'reproduce in a fresh process (heap-layout dependent)')
+        with open(path, 'w') as f:
+          json.dump(doc, f, indent=1, sort_keys=True, default=repr)
+        v = dict(v, msg=doc['msg'], min_ops=v['orig_ops'])
+        out = out2
     if not out['reproduced']:
       print(f'HARNESS-ERROR property={prop} violation did not reproduce in a '
             f'fresh process: {path}')
